@@ -47,6 +47,7 @@ ASSUMPTIONS = [
 REQUIRED_MONITORS = ["embed.jacobian", "vgbs.A", "A_to_cov", "vgbs.moments", "prob_sample.pnr", "prob_sample.threshold",
                      "normalisation.pnr", "normalisation.threshold", "KL.grad.pnr", "Stochastic.grad.pnr",
                      "Stochastic.reparametrisation", "vgbs.samples", "prob_orbit_exact", "prob_event_exact", "feature_vectors(exact)",
+                     "vgbs.in-place-parameter-update",
                      "prob_mc.bounds", "gbs_params", "duschinsky", "franck_condon", "vibronic.state",
                      "TimeEvolution", "dynamics.conservation", "dynamics.premeasure-state", "vibronic.sample-state",
                      "marginals"]
@@ -557,6 +558,36 @@ def run_vgbs(case, rep, V):
             V("VGBS.get_A_init_samples", "cache-modified", "stored samples changed although enough were available")
     else:
         rep.observe("Stochastic.grad.threshold(observed only)")
+
+    # ---- the same objects asked again after the caller's parameter array was updated in place (a training loop does
+    # `params -= lr * grad`): every answer must be the one a fresh object gives for the new values
+    rep.monitor("vgbs.in-place-parameter-update")
+
+    def answers(vgx, klx, th):
+        out = {"A": np.array(vgx.A(th)), "n_mean": float(vgx.n_mean(th)), "mean_photons": np.array(vgx.mean_photons_by_mode(th)),
+               "mean_clicks": np.array(vgx.mean_clicks_by_mode(th)), "W": np.array(vgx.W(th)),
+               "prob_sample": float(np.real(vgx.prob_sample(th, np.array(data[0]))))}
+        if klx is not None:
+            out["KL.evaluate"] = float(klx.evaluate(th))
+            out["KL.grad"] = np.array(klx.grad(th))
+        return out
+
+    th_live = np.array(theta, dtype=float)
+    vg_live = param.VGBS(A, case["n_mean"], emb, thr, samples=data.copy())
+    kl_live = cost.KL(data, vg_live) if not thr else None
+    answers(vg_live, kl_live, th_live)
+    for step in range(2):
+        th_live += 0.07 * (1 + np.abs(th_live))  # in place: same array object, larger theta = weaker model (stays in the domain)
+        got = answers(vg_live, kl_live, th_live)
+        vg_new = param.VGBS(A, case["n_mean"], emb, thr, samples=data.copy())
+        want = answers(vg_new, cost.KL(data, vg_new) if not thr else None, th_live.copy())
+        for key in want:
+            dkey = float(np.max(np.abs(np.asarray(got[key]) - np.asarray(want[key]))))
+            if dkey > 1e-10 * (1 + float(np.max(np.abs(np.asarray(want[key]))))):
+                V("VGBS." + key if not key.startswith("KL") else key, "stale-after-in-place-parameter-update",
+                  "after the caller's parameter array was updated in place (step %d) %s differs by %.3g from what a fresh object "
+                  "returns for the same values" % (step + 1, key, dkey))
+                break
 
     # ---- sample generation and cache discipline
     if case["sample_calls"]:
